@@ -7,6 +7,8 @@ from ..runner import Spec
 NH_CHOICES = [1, 2, 3, 5, 8, 255]
 NB_CHOICES = [3, 4, 7, 64, 1000]
 MAX_CELLS = 1 << 30
+# generated totals stay below these: doubles (multiples of 1/4) remain exact, integers do not overflow
+LIMIT = {"f64": 2**50, "i64": 2**61, "u64": 2**62}
 E_DBL = math.exp(1.0)
 M64 = (1 << 64) - 1
 
@@ -117,6 +119,8 @@ class HB:
         self.cfg = {}     # id -> (nh, nb, seed)
         self.kind = {}
         self.nxt = 0
+        self.bound = {}   # id -> sum |w| so far (the generator keeps it below LIMIT: exact arithmetic, no overflow)
+        self.budget = None  # optional history-wide cap on sum |w| over all updates (merge trees: no merge can leave the range)
 
     def fresh(self):
         self.nxt += 1
@@ -128,10 +132,32 @@ class HB:
         if usable:
             self.cfg[i] = (nh, nb, seed)
             self.kind[i] = kind
+            self.bound[i] = 0
         return i
 
+    def limit(self, i):
+        return LIMIT[self.kind[i]]
+
     def upd(self, i, item, w):
+        if self.bound[i] + abs(w) > self.limit(i):     # keep every sum exactly representable / below overflow
+            w = 1 if self.bound[i] + 1 <= self.limit(i) else 0
+        if self.budget is not None:
+            if abs(w) > self.budget:
+                w = 1 if self.budget >= 1 else 0
+            self.budget -= abs(w)
+        self.bound[i] += abs(w)
         self.ops.append(("upd", i, item, w))
+        return w
+
+    def merge(self, dst, src):
+        """emit `merge dst src` unless the merged total could leave the exact range; returns whether emitted"""
+        ok_cfg = dst != src and self.cfg[dst] == self.cfg[src]
+        if ok_cfg and self.bound[dst] + self.bound[src] > self.limit(dst):
+            return False
+        self.raw("merge %d %d" % (dst, src))
+        if ok_cfg:
+            self.bound[dst] += self.bound[src]
+        return True
 
     def q(self, i, item):
         self.ops.append(("q", i, item))
@@ -144,6 +170,7 @@ class HB:
         self.raw("copy %d %d" % (src, j))
         self.cfg[j] = self.cfg[src]
         self.kind[j] = self.kind[src]
+        self.bound[j] = self.bound[src]
         return j
 
     def reqs(self):
@@ -259,8 +286,7 @@ def hist_streams(rng, tier):
             ids.append(h.copy(i))
         elif r < 0.96:
             j2 = rng.choice(ids)
-            h.raw("merge %d %d" % (i, j2))
-            if h.cfg[i] == h.cfg[j2] and i != j2 and rng.random() < 0.5:
+            if h.merge(i, j2) and h.cfg[i] == h.cfg[j2] and i != j2 and rng.random() < 0.5:
                 h.raw("dump %d" % i)
         elif r < 0.985:
             h.raw("rt %d %d %s %d" % (i, i, rng.choice(["bytes", "stream", "hdr"]), h.cfg[i][2]))
@@ -291,13 +317,13 @@ def hist_merge_tree(rng, tier):
         per = min(per, 8 if tier == "quick" else 30)
     live = []
     allu = []
+    h.budget = LIMIT[kind] // 2
     for _ in range(k):
         i = h.new(kind, *cfg)
         n = rng.randrange(per + 1)
         for _ in range(n):
-            u = (pick(rng, items), rand_weight(rng, kind, signed))
-            h.upd(i, *u)
-            allu.append(u)
+            it = pick(rng, items)
+            allu.append((it, h.upd(i, it, rand_weight(rng, kind, signed))))
         live.append(i)
     while len(live) > 1:
         a = live.pop(rng.randrange(len(live)))
@@ -307,16 +333,17 @@ def hist_merge_tree(rng, tier):
         if rng.random() < 0.15:
             b2 = h.copy(b)
             b = b2
-        h.raw("merge %d %d" % (a, b))
+        if not h.merge(a, b):
+            raise AssertionError("generator: merge skipped in a merge tree")
         for _ in range(rng.randrange(0, 4)):
-            u = (pick(rng, items), rand_weight(rng, kind, signed))
-            h.upd(a, *u)
-            allu.append(u)
+            it = pick(rng, items)
+            allu.append((it, h.upd(a, it, rand_weight(rng, kind, signed))))
         if rng.random() < 0.3:
             h.raw("dump %d" % a)
         live.append(a)
     root = live[0]
     ref = h.new(kind, *cfg)
+    h.budget = None
     rng.shuffle(allu) if rng.random() < 0.5 else None
     for u in allu:
         h.upd(ref, *u)
@@ -427,16 +454,75 @@ class C14(Spec):
 
     # ---- the property statement itself, on one implementation trace
     def oracle(self, hist, impl_out):
+        """Exact counts from the history.  Per sketch the oracle keeps, incrementally: the multiset of updates (item -> total
+        weight), sum |w|, per-item sums of the negative / non-negative weights, and the exact count of every touched cell
+        (row r, the item's location in row r as annotated on the op line)."""
         bad = []
-        sk = {}          # id -> dict(kind, cfg, stream=[(key, w)], prov=set(), unsafe)
-        seen_q = {}      # (kind, cfg, multiset, item) -> (obs, prov)
-        seen_d = {}      # (kind, cfg, multiset) -> (obs, prov)
+        sk = {}          # id -> Acc
+        seen_q = {}      # (signature, item) -> (obs, prov)
+        seen_d = {}      # signature -> (obs, prov)
 
-        def ms(s):
-            d = {}
-            for k, w in s["stream"]:
-                d[k] = d.get(k, 0) + w
-            return (s["kind"], s["cfg"], tuple(sorted((k, v) for k, v in d.items())), sum(abs(w) for _, w in s["stream"]))
+        class Acc:
+            def __init__(self, kind, cfg, unsafe=False):
+                self.kind, self.cfg, self.unsafe = kind, cfg, unsafe
+                self.true = {}        # item -> sum w
+                self.pos = {}         # item -> sum of w >= 0
+                self.neg = {}         # item -> sum of -w for w < 0
+                self.tot = 0          # sum |w|
+                self.possum = 0
+                self.negsum = 0
+                self.cells = {}
+                self.cells_ok = True
+                self.prov = frozenset()
+                self.nupd = 0
+                self._sig = None
+
+            def clone(self, prov, cfg=None):
+                a = Acc(self.kind, cfg or self.cfg, self.unsafe)
+                a.true, a.pos, a.neg = dict(self.true), dict(self.pos), dict(self.neg)
+                a.tot, a.possum, a.negsum = self.tot, self.possum, self.negsum
+                a.cells, a.cells_ok = dict(self.cells), self.cells_ok
+                a.prov = self.prov | {prov}
+                a.nupd = self.nupd
+                return a
+
+            def add(self, key, w, locs_ok, locs):
+                self._sig = None
+                self.nupd += 1
+                self.true[key] = self.true.get(key, 0) + w
+                self.tot += abs(w)
+                if w >= 0:
+                    self.pos[key] = self.pos.get(key, 0) + w
+                    self.possum += w
+                else:
+                    self.neg[key] = self.neg.get(key, 0) - w
+                    self.negsum -= w
+                if locs_ok:
+                    nb = self.cfg[1]
+                    for r, t in enumerate(locs):
+                        j = r * nb + t
+                        self.cells[j] = self.cells.get(j, 0) + w
+                else:
+                    self.cells_ok = False
+
+            def absorb(self, o):
+                self._sig = None
+                self.nupd += o.nupd
+                for d, e in ((self.true, o.true), (self.pos, o.pos), (self.neg, o.neg), (self.cells, o.cells)):
+                    for k, v in e.items():
+                        d[k] = d.get(k, 0) + v
+                self.tot += o.tot
+                self.possum += o.possum
+                self.negsum += o.negsum
+                self.cells_ok = self.cells_ok and o.cells_ok
+                self.prov = self.prov | o.prov | {"merge"}
+
+            def sig(self):
+                """what the state must be a function of: weight type, configuration, multiset of updates up to the order
+                (per-item net weight is NOT enough for total, so sum|w| is part of it)"""
+                if self._sig is None:
+                    self._sig = (self.kind, self.cfg, tuple(sorted(self.true.items())), self.tot)
+                return self._sig
 
         def provkey(p1, p2, what):
             p = p1 | p2
@@ -484,7 +570,7 @@ class C14(Spec):
                     bad.append(("relative-error-not-e-over-buckets", "%r vs %r" % (re, E_DBL / nb), i))
                 if o[6] != "1":
                     bad.append(("fresh-sketch-not-empty", impl_out[i][:80], i))
-                sk[sid] = dict(kind=kind, cfg=(nh, nb, seed), stream=[], prov=set(), unsafe=unsafe)
+                sk[sid] = Acc(kind, (nh, nb, seed), unsafe)
                 continue
             if op in ("sb", "sh"):
                 continue
@@ -492,15 +578,15 @@ class C14(Spec):
                 s = sk.get(int(w[1]))
                 if s is None:
                     continue
-                sk[int(w[2])] = dict(s, stream=list(s["stream"]), prov=s["prov"] | {"copy"})
+                sk[int(w[2])] = s.clone("copy")
                 continue
             sid = int(w[1])
             s = sk.get(sid)
             if s is None:
                 continue
-            kind = s["kind"]
-            nh, nb, seed = s["cfg"]
-            if op in ("upd", "q", "merge", "rt") and s["unsafe"]:
+            kind = s.kind
+            nh, nb, seed = s.cfg
+            if op in ("upd", "q", "merge", "rt") and s.unsafe:
                 if o[0] != "unsafe":
                     bad.append(("bad-observation", impl_out[i][:80], i))
                 continue
@@ -510,29 +596,32 @@ class C14(Spec):
                 locs = w[at + 1:]
                 if o[0] == "throw":
                     bad.append(("update-or-query-throws", l[:60], i)); continue
+                locs_ok = len(locs) == nh and all(t.isdigit() for t in locs)
+                if locs_ok:
+                    locs = [int(t) for t in locs]
+                    locs_ok = all(t < nb for t in locs)
                 if op == "upd":
                     wt = wparse(kind, w[4])
                     if key is not None:
-                        s["stream"].append((key, wt))
-                        s.setdefault("locs", {})[key] = locs
+                        s.add(key, wt, locs_ok, locs)
                     total, est = wparse(kind, o[1]), wparse(kind, o[2])
                     lb = ub = None
                 else:
                     total = None
                     est, lb, ub = wparse(kind, o[1]), wparse(kind, o[2]), wparse(kind, o[3])
-                    if key is not None:
-                        s.setdefault("locs", {})[key] = locs
-                st = s["stream"]
-                tot_true = sum(abs(x) for _, x in st)
+                tot_true = s.tot
                 if total is not None and total != tot_true:
                     bad.append(("total-not-sum-of-abs-weights", "total=%s sum|w|=%s" % (total, tot_true), i))
                 if key is None:
                     if est != 0 or (lb is not None and (lb != 0 or ub != 0)):
                         bad.append(("empty-string-estimate-nonzero", impl_out[i][:80], i))
                     continue
-                true = sum(x for k, x in st if k == key)
-                nonneg = all(x >= 0 for _, x in st)
-                if nonneg:
+                true = s.true.get(key, 0)
+                if locs_ok and s.cells_ok:
+                    rowmin = min(s.cells.get(r * nb + locs[r], 0) for r in range(nh))
+                    if est != rowmin:
+                        bad.append(("estimate-not-row-minimum", "item=%s est=%s, minimum over the rows of the exact cell counts=%s" % (key.hex(), est, rowmin), i))
+                if s.negsum == 0:
                     if est < true:
                         bad.append(("estimate-below-true-weight", "item=%s true=%s est=%s" % (key.hex(), true, est), i))
                     if est > tot_true:
@@ -540,8 +629,8 @@ class C14(Spec):
                 else:
                     if abs(est) > tot_true:
                         bad.append(("estimate-outside-plus-minus-total", "est=%s total=%s" % (est, tot_true), i))
-                    neg_other = sum(-x for k, x in st if k != key and x < 0)
-                    pos_other = sum(x for k, x in st if k != key and x > 0)
+                    neg_other = s.negsum - s.neg.get(key, 0)
+                    pos_other = s.possum - s.pos.get(key, 0)
                     if not (true - neg_other <= est <= true + pos_other):
                         bad.append(("signed-estimate-outside-bracket", "true=%s est=%s neg=%s pos=%s" % (true, est, neg_other, pos_other), i))
                 if lb is not None:
@@ -553,53 +642,46 @@ class C14(Spec):
                     tol = max(Fraction(2), abs(want) / 2**40)
                     if abs(ub - want) > tol:
                         bad.append(("upper-bound-not-estimate-plus-eps-total", "ub=%s want~%s" % (ub, float(want)), i))
-                    k2 = ms(s) + (key,)
+                    k2 = (s.sig(), key)
                     prev = seen_q.get(k2)
                     if prev is None:
-                        seen_q[k2] = ((est, lb, ub), s["prov"])
+                        seen_q[k2] = ((est, lb, ub), s.prov)
                     elif prev[0] != (est, lb, ub):
-                        bad.append((provkey(prev[1], s["prov"], "estimate"), "item=%s %s vs %s" % (key.hex(), prev[0], (est, lb, ub)), i))
+                        bad.append((provkey(prev[1], s.prov, "estimate"), "item=%s %s vs %s" % (key.hex(), prev[0], (est, lb, ub)), i))
                 continue
             if op == "dump":
                 total = wparse(kind, o[1])
-                st = s["stream"]
-                tot_true = sum(abs(x) for _, x in st)
+                tot_true = s.tot
                 if total != tot_true:
                     bad.append(("total-not-sum-of-abs-weights", "total=%s sum|w|=%s" % (total, tot_true), i))
                 if (o[2] == "1") != (total == 0):
                     bad.append(("is-empty-not-total-zero", impl_out[i][:60], i))
-                if s["unsafe"]:
+                if s.unsafe:
                     continue
                 if int(o[3]) != nh * nb:
                     bad.append(("array-size-changed", impl_out[i][:60], i))
                 body = tuple(o[4:])
-                if body and body[0] != "fold":
+                if body and body[0] != "fold" and s.cells_ok:
                     cells = [wparse(kind, x) for x in body]
                     want = [0] * (nh * nb)
-                    okl = True
-                    for k, x in st:
-                        lc = s.get("locs", {}).get(k)
-                        if lc is None or len(lc) != nh or any(not t.isdigit() for t in lc):
-                            okl = False
-                            break
-                        for r in range(nh):
-                            want[r * nb + int(lc[r])] += x
-                    if okl and cells != want:
+                    for j, x in s.cells.items():
+                        want[j] = x
+                    if cells != want:
                         d = next(j for j in range(len(want)) if j >= len(cells) or cells[j] != want[j])
                         bad.append(("cells-not-exact-counts", "cell %d (row %d bucket %d) = %s, exact count %s" % (d, d // nb, d % nb, cells[d] if d < len(cells) else None, want[d]), i))
-                k2 = ms(s)
+                k2 = s.sig()
                 prev = seen_d.get(k2)
                 if prev is None:
-                    seen_d[k2] = (body, s["prov"])
+                    seen_d[k2] = (body, s.prov)
                 elif prev[0] != body:
-                    bad.append((provkey(prev[1], s["prov"], "cells"), "two sketches of the same configuration fed the same multiset of updates have different cells", i))
+                    bad.append((provkey(prev[1], s.prov, "cells"), "two sketches of the same configuration fed the same multiset of updates have different cells", i))
                 continue
             if op == "merge":
                 src = sk.get(int(w[2]))
                 if src is None:
                     continue
                 self_merge = int(w[2]) == sid
-                incompatible = src["cfg"] != s["cfg"]
+                incompatible = src.cfg != s.cfg
                 if o[0] == "throw":
                     if not (self_merge or incompatible):
                         bad.append(("merge-refuses-compatible", l, i))
@@ -607,15 +689,11 @@ class C14(Spec):
                 if self_merge:
                     bad.append(("merge-accepts-self", l, i)); continue
                 if incompatible:
-                    bad.append(("merge-accepts-incompatible", "%s into %s" % (src["cfg"], s["cfg"]), i)); continue
-                s["stream"] = s["stream"] + src["stream"]
-                s["prov"] = s["prov"] | src["prov"] | {"merge"}
-                for k, v in src.get("locs", {}).items():
-                    s.setdefault("locs", {}).setdefault(k, v)
+                    bad.append(("merge-accepts-incompatible", "%s into %s" % (src.cfg, s.cfg), i)); continue
+                s.absorb(src)
                 total = wparse(kind, o[1])
-                tot_true = sum(abs(x) for _, x in s["stream"])
-                if total != tot_true:
-                    bad.append(("merge-total-not-sum", "total=%s sum|w|=%s" % (total, tot_true), i))
+                if total != s.tot:
+                    bad.append(("merge-total-not-sum", "total=%s sum|w|=%s" % (total, s.tot), i))
                 continue
             if op == "rt":
                 dst, seed2 = int(w[2]), int(w[4])
@@ -626,13 +704,12 @@ class C14(Spec):
                     continue
                 if must_throw:
                     bad.append(("deserialize-accepts-wrong-seed", l, i)); continue
-                tot_true = sum(abs(x) for _, x in s["stream"])
-                want_size = 16 + (0 if tot_true == 0 else 8 * (1 + nh * nb))
+                want_size = 16 + (0 if s.tot == 0 else 8 * (1 + nh * nb))
                 if o[1] != str(want_size):
                     bad.append(("serialized-size", "%s vs %d" % (o[1], want_size), i))
-                if wparse(kind, o[2]) != tot_true:
-                    bad.append(("roundtrip-changes:total", "%s vs %s" % (o[2], tot_true), i))
-                sk[dst] = dict(s, cfg=(nh, nb, seed2), stream=list(s["stream"]), prov=s["prov"] | {"rt"})
+                if wparse(kind, o[2]) != s.tot:
+                    bad.append(("roundtrip-changes:total", "%s vs %s" % (o[2], s.tot), i))
+                sk[dst] = s.clone("rt", (nh, nb, seed2))
                 continue
         return bad
 
